@@ -9,7 +9,8 @@ def prof(name, quick=400, thorough=6000, **kw):
     return d
 
 PROPS = {
-    "C01": dict(module="MRB.Props.C01", level="proof", profiles=[prof("fifo", 500)], also_tags=[],
+    "C01": dict(module="MRB.Props.C01", level="proof", profiles=[prof("fifo", 500, exhaustive=5)], also_tags=[],
+                search=[("conc", ["C02", "C03"])],
                 gen_items=["advanceLocal", "advance", "check", "prodAvail", "workAvail", "consAvail", "nextChunk", "nextChunkMut", "wiring", "skeletons"],
                 trusted=SEQ_TRUST,
                 explanation="FIFO refinement theorem over the generated kernel + differential correspondence (profile fifo)."),
@@ -21,15 +22,15 @@ PROPS = {
                          "user code accesses only the granted window"]),
     "C10": dict(module="MRB.Props.C10", level="proof", profiles=[], engines=["conc"], gen_items=["concAcc", "skeletons", "loops", "check"],
                 trusted=["OS scheduling and real time are not modelled"]),
-    "C04": dict(module="MRB.Props.C04", level="proof", profiles=[prof("order", 500)], engines=["conc"],
+    "C04": dict(module="MRB.Props.C04", level="proof", profiles=[prof("order", 500, exhaustive=5)], engines=["conc"],
                 gen_items=["advanceLocal", "advance", "check", "prodAvail", "workAvail", "consAvail", "wiring", "skeletons"], trusted=SEQ_TRUST),
-    "C05": dict(module="MRB.Props.C05", level="proof", profiles=[prof("avail", 500)],
+    "C05": dict(module="MRB.Props.C05", level="proof", profiles=[prof("avail", 500, exhaustive=5), prof("reset", 150, 1500), prof("construct", 150, 1500)],
                 gen_items=["check", "prodAvail", "workAvail", "consAvail", "sliceAvail", "sliceMultipleOf", "skeletons"], trusted=SEQ_TRUST),
-    "C06": dict(module="MRB.Props.C06", level="proof", profiles=[prof("fifo", 500)],
+    "C06": dict(module="MRB.Props.C06", level="proof", profiles=[prof("fifo", 500, exhaustive=5)],
                 gen_items=["nextChunk", "nextChunkMut", "advanceLocal"], trusted=SEQ_TRUST),
-    "C11": dict(module="MRB.Props.C11", level="proof", profiles=[prof("reset", 500)],
+    "C11": dict(module="MRB.Props.C11", level="proof", profiles=[prof("reset", 500, exhaustive=5)],
                 gen_items=["workReset", "consReset", "check", "skeletons"], trusted=SEQ_TRUST),
-    "C12": dict(module="MRB.Props.C12", level="proof", profiles=[prof("detached", 500)],
+    "C12": dict(module="MRB.Props.C12", level="proof", profiles=[prof("detached", 500)], engines=["adetprobe"],
                 gen_items=["detSetIndex", "detReset", "detAdvance", "detGoBack", "detSync", "adetAdvance", "adetGoBack", "adetSync", "skeletons"], trusted=SEQ_TRUST),
     "C07": dict(module="MRB.Props.C07", level="proof", profiles=[prof("drops", 500)], engines=["conc"],
                 gen_items=["skeletons", "concAcc", "localAcc"], trusted=SEQ_TRUST + ["allocator outside the model"]),
@@ -37,7 +38,7 @@ PROPS = {
                 gen_items=["storeKinds", "pins"], trusted=SEQ_TRUST + ["live values are never all-zero bytes (property assumption)"]),
     "C09": dict(module="MRB.Props.C09", level="proof", profiles=[prof("own", 600)],
                 gen_items=["storeKinds", "pins"], trusted=SEQ_TRUST + ["live values are never all-zero bytes (property assumption)"]),
-    "C13": dict(module="MRB.Props.C13", level="translation_validation", profiles=[prof("all", 800), prof("own", 300)],
+    "C13": dict(module="MRB.Props.C13", level="translation_validation", profiles=[prof("all", 800), prof("own", 300)], engines=["adetprobe"],
                 also_tags=["C01", "C04", "C05", "C06", "C07", "C08", "C09", "C11", "C12", "C18"],
                 gen_items=["concAcc", "localAcc", "adetGoBack", "adetAdvance", "adetSync"], trusted=SEQ_TRUST),
     "C14": dict(module="MRB.Props.C14", level="proof",
